@@ -36,6 +36,11 @@ def templates():
     yield "depth2", T.prog([T.fn("src", ["e0"], ["v"]), T.gnode("mid", mid), T.fn("after", ["a"], ["z"])])
     deeper = T.prog([T.gnode("mid", copy.deepcopy(mid)), T.fn("side", ["e0"], ["s0"])], name="top3")
     yield "depth3", T.prog([T.fn("src", ["e0"], ["v"]), T.gnode("top3", deeper), T.fn("after", ["a", "s0"], ["z"])])
+    l3 = T.prog([T.fn("fb", ["e0"], ["b"]), T.fn("fc", ["b"], ["c"])], name="linner")
+    l2 = T.prog([T.gnode("linner", l3), T.fn("fm", ["c"], ["m"])], name="lmid")
+    l1 = T.prog([T.gnode("lmid", l2), T.fn("fo", ["m"], ["o"])], name="louter")
+    yield "innermost-producer-consumed-at-root", T.prog([T.gnode("louter", l1), T.fn("fe", ["b", "o"], ["z"])])
+    yield "prefix-named-siblings", T.prog([T.fn("score", ["text"], ["s1"]), T.fn("score_all", ["text", "s1"], ["s2"]), T.gnode("prep", T.prog([T.fn("clean", ["text"], ["cleaned"])], name="prep")), T.fn("prep_report", ["cleaned"], ["r0"])])
     ginner = T.prog([T.fn("w1", ["e0"], ["w0"])], name="ginner")
     yield "gate-to-container", T.prog([T.route("gt", ["e0"], ["ginner", "oth", "END"]), T.gnode("ginner", ginner), T.fn("oth", ["e0"], ["o0"])])
     einner = T.prog([T.fn("ib", ["a0"], ["b0"]), T.route("ig", ["b0"], ["it", "END"]), T.fn("it", ["b0"], ["t0"])], name="einner")
